@@ -1467,7 +1467,10 @@ class IRGenerator:
                 else:
                     env_to_check = env
 
-                route_name, version = parse_route_name_and_version(val)
+                try:
+                    route_name, version = parse_route_name_and_version(val)
+                except ValueError as e:
+                    raise InvalidSpec('Bad doc reference to route: %s.' % e.args[0], *loc)
                 if route_name not in env_to_check:
                     raise InvalidSpec(
                         'Unknown doc reference to route {}.'.format(quote(route_name)), *loc)
